@@ -18,12 +18,14 @@ import (
 	"fmt"
 	"runtime"
 	"sort"
+	"strconv"
 	"strings"
 	"sync"
 	"sync/atomic"
 	"testing"
 	"time"
 
+	"github.com/zeromicro/go-zero/core/mathx"
 	"github.com/zeromicro/go-zero/core/timex"
 	"github.com/zeromicro/go-zero/internal/verifh"
 )
@@ -446,6 +448,8 @@ func (s *c12Sink) exec(k, v any) {
 	if err != nil {
 		res = c12Err(err)
 	}
+	// stay inside the callback until the run loop has handled the call (it has when it accepts the next request)
+	_ = s.tw.RemoveTimer(c12Sentinel)
 	s.mu.Lock()
 	s.inner = append(s.inner, fmt.Sprintf("in%d=%s", ki, res))
 	s.mu.Unlock()
@@ -817,4 +821,152 @@ func c12CtorStep(op []string) string {
 	tw.Stop()
 	verifh.SettleGoroutines(before, 2*time.Second)
 	return "ok"
+}
+
+// ---------------------------------------------------------------------------------------------- cache.go
+
+// c12GenCache: core/collection/cache.go as a client of the wheel. Keys are set with expiries below, at and above
+// one interval (one second), up to and beyond one revolution (300 slots), with expiries <= 0 (SetTimer rejects
+// them: the entry never expires), set again while pending, deleted while pending, set again after expiry.
+func c12GenCache(r *verifh.Rng) []verifh.Section {
+	const sec = 1000000000
+	var secs []verifh.Section
+	for i := verifh.Scale(12, 120); i > 0; i-- {
+		expire := r.Pick(1, 2, 3, 5, 299, 300, 301) * sec
+		nkeys := r.Range(1, 5)
+		var ops []string
+		tick := func(c int) {
+			for j := 0; j < c; j++ {
+				ops = append(ops, "tick")
+			}
+		}
+		exp := func() int {
+			switch r.Intn(10) {
+			case 0:
+				return r.Pick(1, sec/2, sec-1) // below one interval: clamped, gone at the next tick
+			case 1:
+				return r.Pick(0, -1, -sec) // rejected by SetTimer: stays until deleted
+			case 2:
+				return r.Pick(299, 300, 301, 600, 601) * sec
+			case 3:
+				return r.Range(1, 4)*sec + r.Intn(sec)
+			default:
+				return r.Range(1, 6) * sec
+			}
+		}
+		for j := r.Range(5, 40); j > 0; j-- {
+			k := r.Intn(nkeys)
+			switch x := r.Intn(10); {
+			case x < 3:
+				ops = append(ops, fmt.Sprintf("cset %d %d %d", k, r.Intn(1000), exp()))
+			case x < 4:
+				ops = append(ops, fmt.Sprintf("cput %d %d", k, r.Intn(1000)))
+			case x < 5:
+				ops = append(ops, fmt.Sprintf("cdel %d", k))
+			case x < 6:
+				tick(r.Pick(1, 2, 298, 299, 300, 301))
+			default:
+				tick(r.Range(1, 3))
+			}
+		}
+		tick(r.Pick(1, 6, 302))
+		secs = append(secs, verifh.Section{Cfg: fmt.Sprintf("n=300 interval=%d mode=cache expire=%d", sec, expire), Ops: ops})
+	}
+	return secs
+}
+
+// TestVerifC12Cache: the real Cache; its wheel is rebuilt with the same interval, slots and callback on a
+// harness ticker (the callback is wrapped to observe what it is handed), the expiry jitter is switched off.
+func TestVerifC12Cache(t *testing.T) {
+	secs := verifh.Sections(c12GenCache)
+	verifh.Run(t, secs, func(cfg verifh.Cfg) (func(op []string) string, func()) {
+		before := c12Base()
+		c, err := NewCache(time.Duration(verifh.Atoi64(cfg.Str("expire", "1000000000"))))
+		if err != nil {
+			panic(err)
+		}
+		orig := c.timingWheel
+		sink := &c12Sink{}
+		ticker := &c12Ticker{c: make(chan time.Time)}
+		tw, err := NewTimingWheelWithTicker(orig.interval, orig.numSlots, func(k, v any) {
+			sink.exec(k, v)
+			orig.execute(k, v)
+		}, ticker)
+		if err != nil {
+			panic(err)
+		}
+		orig.Stop()
+		c.timingWheel = tw
+		c.unstableExpiry = mathx.NewUnstable(0)
+		worker := newC12Worker()
+		hung := false
+		waitLoop := func() {
+			if !worker.do(func() { _ = tw.RemoveTimer(c12Sentinel) }) {
+				hung = true
+			}
+		}
+		waitLoop()
+		base := c12Base()
+		step := func(op []string) string {
+			if hung {
+				return "TIMEOUT-skipped"
+			}
+			ok := true
+			switch op[0] {
+			case "cset":
+				ok = worker.do(func() { c.SetWithExpire(op[1], verifh.Atoi(op[2]), time.Duration(verifh.Atoi64(op[3]))) })
+			case "cput":
+				ok = worker.do(func() { c.Set(op[1], verifh.Atoi(op[2])) })
+			case "cdel":
+				ok = worker.do(func() { c.Del(op[1]) })
+			case "tick":
+				ok = worker.do(func() { ticker.c <- time.Time{} })
+			default:
+				return "bad-op"
+			}
+			if !ok {
+				hung = true
+				return "TIMEOUT-call"
+			}
+			for round, last := 0, -1; round < 8; round++ {
+				waitLoop()
+				if hung {
+					return "TIMEOUT-loop"
+				}
+				if !verifh.SettleGoroutines(base, 5*time.Second) {
+					return "TIMEOUT-goroutines"
+				}
+				n := sink.count()
+				if n == last || (round == 0 && n == 0) {
+					break
+				}
+				last = n
+			}
+			out := sink.collect(&base)
+			c.lock.Lock()
+			var keys []int
+			for k := range c.data {
+				n, _ := strconv.Atoi(k)
+				keys = append(keys, n)
+			}
+			c.lock.Unlock()
+			sort.Ints(keys)
+			has := "-"
+			if len(keys) > 0 {
+				ss := make([]string, len(keys))
+				for i, k := range keys {
+					ss[i] = strconv.Itoa(k)
+				}
+				has = strings.Join(ss, ",")
+			}
+			return strings.TrimSpace(out + " has=" + has)
+		}
+		return step, func() {
+			tw.Stop()
+			if !hung {
+				close(worker.req)
+			}
+			_ = before
+		}
+	})
 }
